@@ -127,8 +127,22 @@ PRELINES = [[], ['hello'], ['xSSH-2.0-a'], [' SSH-2.0-a'], ['SSH-'], ['Welcome t
 SOCK_BANNERS = ['SSH-2.0-OpenSSH_9.6', 'SSH-2.0-a.1 c d', 'SSH-1.99-dropbear_2020.81', 'SSH-2.0-a\x80b', 'SSH-2.0-x  two  spaces ', 'SSH-2.0-Sun_SSH-1.5 was SSH-1.0']
 
 
+SOCK_INJECT = [b'\x80', b'\x00', b'\x7f', b'\x1c', b'\x1d', b'\x1e', b'\x1f', b'\x01', b'\x0b', b'\t', b'\xc2\x85', b'\xc2\xa0', b'\xe2\x80\xa8',
+               b'\xe3\x80\x80', b'\xc3\xa9', b'\xff\xfe']
+ASCII_WS = (b'\t', b'\x0b', b'\x0c', b' ')
+
+
 def sock_cases(tier):
     out = []
+    # non-printable / non-ASCII bytes at every position of a short banner, through the real socket reader
+    for base in (b'SSH-2.0-ab', b'SSH-2.0-ab c d'):
+        for inj in SOCK_INJECT:
+            for pos in range(8, len(base) + 1):
+                if pos == len(base) and inj in ASCII_WS:
+                    continue      # trailing ASCII blanks are line-end noise, not part of the string
+                for eol in (b'\r\n', b'\n'):
+                    raw = base[:pos] + inj + base[pos:] + eol
+                    out.append(((), (base[:pos] + inj + base[pos:]).decode('latin1'), eol.decode(), raw, None))
     for pre in PRELINES:
         for bl in SOCK_BANNERS:
             for eol in ('\r\n', '\n'):
